@@ -5,6 +5,7 @@ import (
 	"fmt"
 	"io"
 	"net"
+	"os"
 	"time"
 	"unsafe"
 )
@@ -83,6 +84,10 @@ type Conn struct {
 	termSet          bool
 	DeliveredAt      []time.Duration
 	zeroLenReadsLeft int
+	// transport deadlines (simulated time)
+	rdl, wdl       time.Duration
+	rdlSet, wdlSet bool
+	DeadlinesSet   int
 }
 
 // The transport passes no happens-before edge from a writer to a reader: a network does not either, and an edge
@@ -190,19 +195,59 @@ func (c *Conn) Close() error {
 	return t.resp.err
 }
 
-func (c *Conn) LocalAddr() net.Addr                { return simAddr{} }
-func (c *Conn) RemoteAddr() net.Addr               { return simAddr{} }
+func (c *Conn) LocalAddr() net.Addr  { return simAddr{} }
+func (c *Conn) RemoteAddr() net.Addr { return simAddr{} }
 
-// Deadlines on the transport are not modelled: a library that starts to set them must not be judged by a
-// simulation in which they never expire.
-func (c *Conn) SetDeadline(t time.Time) error      { return c.noDeadlines() }
-func (c *Conn) SetReadDeadline(t time.Time) error  { return c.noDeadlines() }
-func (c *Conn) SetWriteDeadline(t time.Time) error { return c.noDeadlines() }
+// Deadlines on the transport, on the simulated clock (the library reads the clock through simrt.Now, so a deadline
+// it computes from "now" lands on the same axis). As with a net.Conn: a Read or Write whose deadline has passed
+// fails at once with a timeout error that matches os.ErrDeadlineExceeded; one that is blocked fails when the
+// deadline comes; the zero time removes the deadline; setting a deadline affects calls already blocked.
+func (c *Conn) SetDeadline(t time.Time) error {
+	c.setDeadline(t, true, true)
+	return nil
+}
+func (c *Conn) SetReadDeadline(t time.Time) error {
+	c.setDeadline(t, true, false)
+	return nil
+}
+func (c *Conn) SetWriteDeadline(t time.Time) error {
+	c.setDeadline(t, false, true)
+	return nil
+}
 
 //go:norace
-func (c *Conn) noDeadlines() error {
-	c.net.s.machineryFromTask("deadline set on the simulated transport: not modelled")
-	return nil
+func (c *Conn) setDeadline(t time.Time, rd, wr bool) {
+	tk := me()
+	if tk == nil {
+		return
+	}
+	// a scheduling point: another goroutine's blocked Read / Write is affected from here on
+	tk.post(opYield, 0)
+	tk.call()
+	set, at := !t.IsZero(), t.Sub(simEpoch)
+	if rd {
+		c.rdlSet, c.rdl = set, at
+	}
+	if wr {
+		c.wdlSet, c.wdl = set, at
+	}
+	c.DeadlinesSet++
+}
+
+// allocated once, before any task exists: the scheduler hands them to tasks
+var (
+	errReadDeadline  = &deadlineErr{op: "read"}
+	errWriteDeadline = &deadlineErr{op: "write"}
+)
+
+// deadlineErr is what a Read / Write past its deadline returns.
+type deadlineErr struct{ op string }
+
+func (e *deadlineErr) Error() string   { return e.op + " sim: i/o timeout" }
+func (e *deadlineErr) Timeout() bool   { return true }
+func (e *deadlineErr) Temporary() bool { return true }
+func (e *deadlineErr) Is(target error) bool {
+	return target == os.ErrDeadlineExceeded
 }
 
 // ---- scheduler side ----
@@ -210,6 +255,9 @@ func (c *Conn) noDeadlines() error {
 func (n *Net) readReady(t *Task) bool {
 	c := t.req.conn
 	if c.clientClosed || t.req.n == 0 || len(c.inbox) > 0 {
+		return true
+	}
+	if c.rdlSet && n.s.now >= c.rdl {
 		return true
 	}
 	if len(c.Transients) > 0 && c.Transients[0] <= c.consumed {
@@ -242,6 +290,11 @@ func (n *Net) grantRead(t *Task) string {
 	if c.clientClosed {
 		t.resp.err = ErrConnClosed
 		return "closed"
+	}
+	if c.rdlSet && n.s.now >= c.rdl {
+		n.s.Fault("read-deadline-expired")
+		t.resp.err = errReadDeadline
+		return "deadline"
 	}
 	if t.req.n == 0 {
 		t.zeroReads++
@@ -312,6 +365,24 @@ func (n *Net) grantWrite(t *Task) string {
 		return "closed"
 	}
 	b := snapshotNoRace(t.req.buf)
+	if c.wdlSet && n.s.now >= c.wdl {
+		// what the socket buffer still takes is written, the rest is not
+		k := 0
+		if c.PeerStalled {
+			if k = c.SendWindow - c.stalledBytes; k > len(b) {
+				k = len(b)
+			}
+			if k < 0 {
+				k = 0
+			}
+			c.stalledBytes += k
+			c.BytesFromClient += k
+		}
+		n.s.Fault("write-deadline-expired")
+		t.resp.n = k
+		t.resp.err = errWriteDeadline
+		return fmt.Sprintf("deadline after %d bytes", k)
+	}
 	if c.term == TermReset {
 		// the peer reset the connection: writing fails as well
 		t.resp.err = ErrConnReset
